@@ -1,7 +1,7 @@
 CONSTANTS
   Chunks = 64
   FullFor = {}
-  Variants = {FALSE}
+  Variants = {TRUE}
 INIT Init
 NEXT Next
 INVARIANTS ModelledOnly MachineIsConv AtMostOneInv CarriesInv MetaMemberInv NodeRuleInv WayGeomInv RouteInv OptionsInv SkipInv
